@@ -70,9 +70,12 @@ type FlowP struct {
 	Emitters  int        `json:"emitters,omitempty"`
 	EmitNest  bool       `json:"emit_nest,omitempty"`
 	InstrFlow bool       `json:"instr_flow,omitempty"`
-	OptSeed   int64      `json:"opt_seed"`            // shuffles the option order
-	WrapArgs  bool       `json:"wrap_args"`           // wrap directive arguments in rt.Arg probes
-	ErrIdent  bool       `json:"err_ident,omitempty"` // a directive argument mentions the user's variable err
+	// EmitShared: the first emitter is a (nested) stack shared by every
+	// execution of the run, as a process-wide emitter would be.
+	EmitShared bool  `json:"emit_shared,omitempty"`
+	OptSeed    int64 `json:"opt_seed"`            // shuffles the option order
+	WrapArgs   bool  `json:"wrap_args"`           // wrap directive arguments in rt.Arg probes
+	ErrIdent   bool  `json:"err_ident,omitempty"` // a directive argument mentions the user's variable err
 }
 
 type PEnd struct {
@@ -102,18 +105,19 @@ type PColl struct {
 }
 
 type ParP struct {
-	Tasks     []PTask `json:"tasks,omitempty"`
-	Colls     []PColl `json:"colls,omitempty"`
-	ConcMode  int     `json:"conc_mode,omitempty"`
-	ConcConst int     `json:"conc_const,omitempty"`
-	COEMode   int     `json:"coe_mode,omitempty"`
-	Emitters  int     `json:"emitters,omitempty"`
-	EmitNest  bool    `json:"emit_nest,omitempty"`
-	InstrPar  bool    `json:"instr_par,omitempty"`
-	OptSeed   int64   `json:"opt_seed"`
-	WrapArgs  bool    `json:"wrap_args"`
-	ErrIdent  bool    `json:"err_ident,omitempty"`
-	Generic   bool    `json:"generic,omitempty"` // enclosing function is generic
+	Tasks      []PTask `json:"tasks,omitempty"`
+	Colls      []PColl `json:"colls,omitempty"`
+	ConcMode   int     `json:"conc_mode,omitempty"`
+	ConcConst  int     `json:"conc_const,omitempty"`
+	COEMode    int     `json:"coe_mode,omitempty"`
+	Emitters   int     `json:"emitters,omitempty"`
+	EmitNest   bool    `json:"emit_nest,omitempty"`
+	InstrPar   bool    `json:"instr_par,omitempty"`
+	EmitShared bool    `json:"emit_shared,omitempty"`
+	OptSeed    int64   `json:"opt_seed"`
+	WrapArgs   bool    `json:"wrap_args"`
+	ErrIdent   bool    `json:"err_ident,omitempty"`
+	Generic    bool    `json:"generic,omitempty"` // enclosing function is generic
 }
 
 // ProbeInfo describes one rt.Arg probe of a program, in source order.
